@@ -150,6 +150,8 @@ def make_constraint(cspec):
         if ret.startswith("bool"):
             c = c > 0
         # "..._col": an (N, 1) column, the shape the validation message of BADS asks for ("returns a column vector")
+        if ret.endswith("_list"):
+            return [bool(t) if ret.startswith("bool") else float(t) for t in c]  # a list comprehension over the rows
         return c.reshape(-1, 1) if ret.endswith("_col") else c
 
     return cons
